@@ -9,7 +9,9 @@ for d in sorted(glob.glob('/verif/seeded/*/')):
     needs = re.sub(r'\s+', ' ', (m.get('needs') or '')).strip()
     needs = needs[:170] + ('…' if len(needs) > 170 else '')
     note = re.sub(r'\s+', ' ', (c.get('note') or 'caught at once')).strip()
-    first = 'missed' if 'NOT caught' in note or 'not under' in note.lower() and 'first run' in note.lower() or 'passed' in note.split(';')[0] else \
+    head = note[:60]
+    first = 'missed' if ('MISSED' in head or 'NOT caught' in note or 'passed' in note.split(';')[0]
+                         or ('not under' in note.lower() and 'first run' in note.lower() and 'caught on first run' not in head)) else \
             ('undecided' if 'UNDECIDED' in note.split(';')[0] else 'caught')
     rows.append('| %s | %s | %s | %s |' % (os.path.basename(d[:-1]), needs.replace('|', '/'), first, note.replace('|', '/')[:420]))
 table = '| seed | what it needs to manifest | first run | what catches it now |\n|---|---|---|---|\n' + '\n'.join(rows) + '\n'
